@@ -269,3 +269,8 @@ def run(ctx):
     r06_3(ctx, fx)
     r06_4(ctx, fx)
     r06_5(ctx, fx)
+    # a counted connection that is discarded before it was announced (failed accept, failed protocol notification) must release its slot:
+    # the rollback obligations of R05.2 (stated in rules/C05.py) require TransportManager::on_connection_closed on those paths, which by
+    # R06.2 releases the capacity on every path
+    import C05
+    C05.r05_2(ctx, fx)
